@@ -474,7 +474,8 @@ class RegFuture(BaseFuture):
             other_operand = self.builder._mem_mgr.get_inactive_register(activate=True)
             other_tmp_register = other_operand
             load_commands += other.get_load_commands(other_tmp_register)
-            store_commands += other._get_store_commands(other_tmp_register)
+            # NOTE `other` is only read: it must not be stored back (its index may
+            # depend on this register, which has just been changed).
         elif isinstance(other, operand.Register) or isinstance(other, int):
             other_operand = other
         else:
